@@ -639,7 +639,11 @@ func (e *Engine) applyContract(fr *Frame, st *State, reach Term, fc *FuncContrac
 	eff := e.P.expandAssigns(fc)
 	// writes to lock-guarded fields that the callee's contract allows count as writes of the caller
 	{
-		for _, c := range eff.comps {
+		comps := eff.comps
+		if fc.HasWrites {
+			comps = e.P.expandAssigns(&FuncContract{ID: fc.ID, Assigns: fc.Writes}).comps
+		}
+		for _, c := range comps {
 			if e.P.isGuardedComp(c) {
 				e.noteGuardedWrite(c, "through "+fc.ID)
 			}
